@@ -578,7 +578,11 @@ class BareGitStore(GitStore):
         try:
             ref_object = self.repo[self.ref]
         except KeyError:
-            return Tree()
+            # No commits yet. Make sure the empty tree exists in the object
+            # store, since its id is handed out as ctag / sync-token.
+            t = Tree()
+            self.repo.object_store.add_object(t)
+            return t
         if isinstance(ref_object, Tree):
             return ref_object
         else:
